@@ -7,7 +7,9 @@ RULE = ("engine A: random set/none/take sequences on the real pending-counter ty
         "parked after its context check while the pool stops), pool.limit.discarded (a tick landing between the limit "
         "path's discard and its cancel) and pool.worker.pretake (a tick superseding pending work while a worker is "
         "mid-pickup) — the same script is executed on the proven interleaving model with a settling scheduler and "
-        "started / dropped / stuck are compared; hook-free stress: 8-64 workers against thousands of fast ticks, "
+        "started / dropped / stuck are compared; hook-free stress: 8-64 workers against thousands of fast ticks, and "
+        "pool.race — hundreds of rounds of a tick racing with the pool's shutdown while requests are executing and "
+        "pending (started + dropped must be the first tick's requests, plus the racing tick's if it got in), "
         "requested = started + dropped; whole runs with a wrapping rate function. Non-trivial: a script with at least one "
         "parked thread or one superseding tick, or a stress run; distinct = distinct case lines.")
 ASSUMPTIONS = ["sync.Mutex / sync.Cond semantics (Wait releases the lock and re-acquires it after a Broadcast) and sequentially consistent atomics",
@@ -24,6 +26,9 @@ def corpus():
         "pool.script 3 0 t1;s;t1;s;t1;s;t5;s;x",
         "jobcounter s5,t,t,n,s0,t,n,s-2,t",
         "pool.stress 32 4000 3 3",
+        "pool.race 1 3 5 250",       # a tick racing with shutdown while requests are pending (1 executing, 2 pending)
+        "pool.race 4 2 6 250",       # … while idle workers are picking the racing tick's requests up
+        "pool.race 2 0 4 150",
         "run prop=C02 mode=constant rate=7/50ms dur=500 conc=3 body=30 igndrop=1",
     ]
 
@@ -65,6 +70,9 @@ def generate(rng, tier):
         out.append("jobcounter " + ",".join(ops))
     for _ in range({"quick": 3, "thorough": 40, "search": 12}[tier]):
         out.append("pool.stress %d %d %d %d" % (rng.choice([8, 32, 64, 256]), rng.choice([2000, 6000]), rng.choice([1, 3, 6]), 3))
+    for _ in range({"quick": 2, "thorough": 40, "search": 10}[tier]):
+        w = rng.choice([1, 2, 4, 8])
+        out.append("pool.race %d %d %d %d" % (w, rng.choice([0, 1, w, w + 2, 3 * w]), rng.randint(1, 9), {"quick": 200, "thorough": 1500, "search": 600}[tier]))
     for _ in range({"quick": 3, "thorough": 30, "search": 6}[tier]):
         out.append("run prop=C02 mode=constant rate=%d/%dms dur=%d conc=%d body=%d igndrop=1" % (
             rng.randint(1, 9), rng.choice([20, 50, 100]), rng.choice([300, 500]), rng.choice([1, 3, 10]), rng.choice([0, 10, 40, 120])))
@@ -100,7 +108,7 @@ def distribution(recs):
             d["drops_observed"] += "dropped=0" not in r["impl"]
         elif c.startswith("jobcounter"):
             d["jobcounter"] += 1
-        elif c.startswith("pool.stress"):
+        elif c.startswith(("pool.stress", "pool.race")):
             d["stress"] += 1
         else:
             d["whole_runs"] += 1
